@@ -84,25 +84,64 @@ Section EvalProps.
         + now apply IH in H.
     Qed.
 
-    Lemma destroy_obj_frame l s s' : destroy_obj cls depth ex l s = Ok s' -> same_frame s s'.
+    Lemma release_frame k extra : forall l s s', release cls depth ex k extra l s = Ok s' -> same_frame s s'.
     Proof.
-      unfold destroy_obj. destruct (get_obj s l) as [o|]; [|intro H; inversion H; apply same_frame_refl].
-      destruct (o_dead o); [intro H; inversion H; apply same_frame_refl|].
-      destruct (run_dtors ex _ l _) as [s1| |] eqn:R; cbn [bind]; try discriminate.
-      apply run_dtors_frame in R. intro H.
+      induction k as [|k IH]; cbn [release]; intros l s s' H; [discriminate|].
+      destruct (get_obj s l) as [o|]; [|inversion H; apply same_frame_refl].
+      destruct (o_dead o || existsb (Nat.eqb l) (all_refs s extra)); [inversion H; apply same_frame_refl|].
+      destruct (run_dtors ex _ l _) as [s1| |] eqn:R; cbn [bind] in H; try discriminate.
+      apply run_dtors_frame in R.
       assert (same_frame s s1) as S1 by (eapply same_frame_trans; [apply same_frame_set_obj | exact R]).
-      destruct (get_obj s1 l); inversion H; subst; exact S1.
+      clear R. revert s1 S1 H. generalize (map fst (o_fields o)). intro fs.
+      induction fs as [|f fs IHf]; intros s1 S1 H; cbn [fold_left] in H.
+      - inversion H; subst. exact S1.
+      - assert (forall (acc : res (st (F:=F))) sx, acc = Ok sx -> same_frame s sx ->
+                  forall r, (do sx0 <- acc;
+                             match get_obj sx0 l with
+                             | Some ox =>
+                                 let v := sc_find f (o_fields ox) in
+                                 let sy := set_obj sx0 l (mkObj (o_cls ox) (sc_remove f (o_fields ox)) true) in
+                                 match v with
+                                 | Some (VObj (Some m) _) => release cls depth ex k extra m sy
+                                 | _ => Ok sy
+                                 end
+                             | None => Ok sx0
+                             end) = Ok r -> same_frame s r) as Step.
+        { intros acc sx -> Hs r Hr. cbn [bind] in Hr.
+          destruct (get_obj sx l) as [ox|]; [|inversion Hr; subst; exact Hs].
+          cbv zeta in Hr.
+          destruct (sc_find f (o_fields ox)) as [v|].
+          - destruct v; try (inversion Hr; subst; eapply same_frame_trans; [exact Hs | apply same_frame_set_obj]).
+            destruct l0 as [m|]; [|inversion Hr; subst; eapply same_frame_trans; [exact Hs | apply same_frame_set_obj]].
+            apply IH in Hr. eapply same_frame_trans; [exact Hs|]. eapply same_frame_trans; [apply same_frame_set_obj | exact Hr].
+          - inversion Hr; subst. eapply same_frame_trans; [exact Hs | apply same_frame_set_obj]. }
+        match type of H with fold_left _ fs ?acc0 = _ => destruct acc0 as [r0| |] eqn:A0 end.
+        + apply (IHf r0); [|exact H]. eapply Step; [reflexivity | exact S1 | exact A0].
+        + exfalso. clear - H. induction fs; cbn in H; [discriminate | auto].
+        + exfalso. clear - H. induction fs; cbn in H; [discriminate | auto].
     Qed.
+
+    Lemma destroy_obj_frame l s s' : destroy_obj cls depth ex l s = Ok s' -> same_frame s s'.
+    Proof. apply release_frame. Qed.
 
     Lemma sweep_frame k extra s s' : sweep cls depth ex k extra s = Ok s' -> same_frame s s'.
     Proof.
       revert s s'. induction k as [|k IH]; cbn [sweep]; intros s s' H.
       - inversion H. apply same_frame_refl.
-      - destruct (unreferenced s extra) as [|l others]; [inversion H; apply same_frame_refl|].
+      - destruct (unreferenced s extra) as [|l others] eqn:U; [inversion H; apply same_frame_refl|].
+        match type of H with bind ?m _ = _ => destruct m as [s1| |] eqn:D end; cbn [bind] in H; try discriminate.
+        assert (same_frame s s1) as S1.
+        { clear H. revert D. generalize (l :: others). intro cs. generalize (same_frame_refl s).
+          generalize s at 2 3. intros s0 Hs0. revert s0 Hs0.
+          induction cs as [|c cs IHc]; intros s0 Hs0 D; cbn [fold_left] in D.
+          - inversion D; subst. exact Hs0.
+          - cbn [bind] in D.
+            destruct (release cls depth ex _ extra c s0) as [r0| |] eqn:R.
+            + apply (IHc r0); [|exact D]. apply release_frame in R. eapply same_frame_trans; eauto.
+            + exfalso. clear - D. induction cs; cbn in D; [discriminate | auto].
+            + exfalso. clear - D. induction cs; cbn in D; [discriminate | auto]. }
         match type of H with (if ?c then _ else _) = _ => destruct c end; [discriminate|].
-        match type of H with bind (destroy_obj _ _ _ ?x _) _ = _ => destruct (destroy_obj cls depth ex x s) as [s1| |] eqn:D end;
-          cbn [bind] in H; try discriminate.
-        apply IH in H. apply destroy_obj_frame in D. eapply same_frame_trans; eauto.
+        apply IH in H. eapply same_frame_trans; eauto.
     Qed.
 
     Lemma sweep_all_frame extra s s' : sweep_all cls depth ex extra s = Ok s' -> same_frame s s'.
